@@ -339,6 +339,11 @@ func (m *Manager) AddValidatedV2Blocks(blocks []types.Block, states []consensus.
 	for i := range blocks {
 		if blocks[i].V2 == nil {
 			return errors.New("only v2 blocks can be pre-validated")
+		} else if states[i].Index.Height < m.tipState.Network.HardforkV2.RequireHeight {
+			// below the require height applying or reverting a block needs its
+			// supplement (v1 transactions, expiring v1 contracts), which
+			// pre-validated blocks are stored without
+			return errors.New("only blocks from the v2 require height on can be pre-validated")
 		} else if blocks[i].Timestamp.After(states[i].MaxFutureTimestamp(time.Now())) {
 			// not a consensus rule, so pre-validation does not cover it
 			return ErrFutureBlock
